@@ -106,6 +106,32 @@ Proportional2(w1, w2) ==
            (* w1_i / w1_p = w2_i / w2_p  with w1_p = 1 in its own normalisation *)
            /\ w1.ratios[i][1] * w2.ratios[i][2] * w2.ratios[p][1] = w2.ratios[i][1] * w1.ratios[i][2] * w2.ratios[p][2]
      /\ (w1.sgn = w2.sgn) = (w2.ratios[p][1] * w2.ratios[p][2] > 0)
+(***************************************************************************)
+(* The lattice pass (develop_lattice), judged on its own output: the cells *)
+(* it creates are exactly one per element of the declared ranges whose     *)
+(* FILL entry is not 0 - none outside the ranges, none for universe 0 -,   *)
+(* each filled with the universe of its index (first index fastest; 0 =    *)
+(* the lattice cell's own universe, i.e. the element keeps the material)   *)
+(* and each placing that universe by  x = shift(idx) + T(x_inner),  T the  *)
+(* FILL transformation of the lattice cell, else its TRCL, else identity.  *)
+(* Decks with exactly one lattice cell; S.elems = the recorded new cells.  *)
+(***************************************************************************)
+LatticeDefects(D, S) ==
+  LET lats == { i \in 1..Len(D.cells) : D.cells[i].lat # 0 }
+  IN IF Cardinality(lats) # 1 THEN {}
+     ELSE
+       LET c == D.cells[CHOOSE i \in lats : TRUE]
+           T == IF c.hasftr THEN c.ftr ELSE IF c.hastrcl THEN c.trcl ELSE IdTr
+           univ(idx) == c.lunivs[PosInArray(c, idx)]
+           expected == { [o2 |-> [i \in 1..3 |-> LatShift(c, idx)[i] + 2 * T.o[i]], m |-> T.m,
+                          fill |-> IF univ(idx) = c.u THEN 0 ELSE univ(idx)] :
+                         idx \in { x \in IdxSet(c) : univ(x) # 0 } }
+           recorded == { [o2 |-> S.elems[i].o2, m |-> S.elems[i].m, fill |-> S.elems[i].fill] : i \in 1..Len(S.elems) }
+           nexp == Cardinality({ x \in IdxSet(c) : univ(x) # 0 })
+       IN (IF expected \ recorded # {} THEN {"lattice_element_missing"} ELSE {})
+          \cup (IF recorded \ expected # {} THEN {"lattice_element_unexpected"} ELSE {})
+          \cup (IF Len(S.elems) # nexp THEN {"lattice_element_count"} ELSE {})
+          \cup (IF \E i \in 1..Len(S.elems) : S.elems[i].u # c.u THEN {"lattice_element_universe"} ELSE {})
 MergeDefects(S) ==
   LET rowOf(id) == { S.rows[i].row : i \in { j \in 1..Len(S.rows) : S.rows[j].id = id } }
       witOf(id) == { S.wit[i] : i \in { j \in 1..Len(S.wit) : S.wit[j].id = id } }
